@@ -155,3 +155,18 @@ def shrink_candidates(t):
         for i, x in enumerate(t.args):
             for y in shrink_candidates(x):
                 yield Con(t.name, *(t.args[:i] + (y,) + t.args[i + 1 :]))
+
+
+def canon(t):
+    """Canonical form for comparisons: the element list of every (VFset [...]) is sorted (sets are unordered)."""
+    t = norm(t)
+    if isinstance(t, Con):
+        args = tuple(canon(a) for a in t.args)
+        if t.name == "VFset" and len(args) == 1 and isinstance(args[0], tuple):
+            args = (tuple(sorted(args[0], key=to_text)),)
+        c = Con.__new__(Con)
+        c.name, c.args = t.name, args
+        return c
+    if isinstance(t, tuple):
+        return tuple(canon(a) for a in t)
+    return t
